@@ -5,7 +5,7 @@ Generated: a topology (1..4 streams; BASIC / BASIC_WAIT / PRIO / RANDWS schedule
 rules of gen/topo.py allow; pools shared between streams; stacked schedulers) and a
 fork-join program: named and unnamed ULTs and tasklets created by the primary ULT,
 by ULTs, by tasklets and by external threads through create / create_to /
-create_on_xstream / revive, whose bodies yield, block on eventuals and a mutex, create
+create_on_xstream / create_many / revive, whose bodies yield, block on eventuals and a mutex, create
 children, and join or free them.
 Oracle (executor): per incarnation exactly one start with the given function and
 argument, no start while running, start on a stream whose scheduler serves the unit's
@@ -259,6 +259,30 @@ def cases_main(draw, ctx):
                     and not chd.creates and not any("evset" in m for m in chd.mid) \
                     and t.cls(chd.pool) != "spmc" and can_produce(t, a, chd.pool, spmc_owner):
                 a.blocking += ["revive %d %d" % (chd.idx, chd.pool), "free %d" % chd.idx]
+    # ABT_thread_create_many: merge runs of plain creations of default ULTs of equal
+    # namedness (each keeps its own pool, function and argument)
+    byidx = {u.idx: u for u in units}
+    for a in actors:
+        merged, run = [], []
+
+        def flush():
+            if len(run) >= 2:
+                merged.append("createmany " + " ".join(map(str, run)))
+            else:
+                merged.extend("create %d" % r for r in run)
+            del run[:]
+        for c in a.creates:
+            w = c.split()
+            ok = w[0] == "create" and byidx[int(w[1])].kind == "ult"
+            if ok and run and (byidx[run[0]].named != byidx[int(w[1])].named or len(run) == 4):
+                flush()
+            if ok and (run or draw(st.integers(0, 2)) == 0):
+                run.append(int(w[1]))
+            else:
+                flush()
+                merged.append(c)
+        flush()
+        a.creates = merged
     lines = [draw(sched_line(ctx, extra=" tick=10000"))] + t.lines()
     if nev:
         for e in range(nev):
@@ -299,7 +323,7 @@ def classify(text, res, ctx):
             out.append("stacked_sched")
     if "note c01-xsjoin" in text:
         out.append("xsjoin_variant")
-    for k in ("create_to", "revives", "join_before_end", "contended_lock", "set_with_waiter",
+    for k in ("create_to", "create_many", "revives", "join_before_end", "contended_lock", "set_with_waiter",
               "xsjoin_with_pending_units"):
         if stat(res, k):
             out.append(k)
